@@ -91,7 +91,38 @@ pub fn hs(t: &Torrent, kind: &HsKind, announced_id: &[u8; 20], r: &mut Rng) -> M
 
 pub struct Scenario { pub cfg: SimCfg, pub desc: Value, pub abusers: Vec<(String, bool, [u8; 20])> }
 
+/// Family: the tracker lists, in a later announce, an address next to one that is still connected;
+/// the peer at the new address presents the id announced for the *other* address.
+pub fn gen_relisted(r: &mut Rng, seed: u64) -> Scenario {
+    let torrent = Rc::new(gen_sim_torrent(r, 6, true));
+    let n = torrent.n();
+    let mut peers = vec![];
+    // spec order is list order; the client pops candidates from the end
+    // C: refused, so that the client runs out of candidates and announces again
+    peers.push(PeerSpec { addr: addr(2), id: peer_id(2), entry: Entry::Dialled { from_announce: 0 }, make: Box::new(|_| None), chunk: 0, pipe: 1 << 20 });
+    // X: listed from announce 1 on with id peer_id(1), presents the id announced for B
+    let stranger_kind = r.below(3);
+    let presented = match stranger_kind { 0 => peer_id(0), 1 => peer_id(2), _ => { let mut i = peer_id(1); i[19] ^= 1; i } };
+    let mut steps = vec![Step::Send(Msg::handshake(&torrent.info_hash(), &presented)), Step::Send(Msg::Bitfield(bitfield_bytes(&vec![true; n]))), Step::Wait(r.range(1500, 4000)), Step::Send(Msg::Unchoke), Step::Wait(3000), Step::Send(Msg::Interested), Step::RequestOwned];
+    if r.chance(1, 2) { steps.insert(1, Step::Wait(r.range(1, 1200))); }
+    let st = steps.clone();
+    peers.push(PeerSpec { addr: addr(1), id: peer_id(1), entry: Entry::Dialled { from_announce: 1 }, make: Box::new(move |nth| if nth > 1 { None } else { Some(abuser(st.clone(), 30_000)) }), chunk: 0, pipe: 1 << 20 });
+    // B: connected throughout, never unchokes (so pieces stay missing and the client keeps looking for peers)
+    let mut b = SeederCfg::honest(peer_id(0), vec![true; n]);
+    b.unchoke_after_ms = Some(10_000_000);
+    b.idle_close_ms = 10_000_000;
+    b.chatter_ms = Some(40_000);
+    let b2 = b.clone();
+    peers.push(PeerSpec { addr: addr(0), id: peer_id(0), entry: Entry::Dialled { from_announce: 0 }, make: Box::new(move |nth| if nth > 1 { None } else { Some(seeder(b2.clone())) }), chunk: 0, pipe: 1 << 20 });
+    let presents = ["the id announced for the connected peer", "the id announced for the refused peer", "own id with last bit flipped"][stranger_kind as usize];
+    let desc = json!({"seed": seed, "family": "address listed next to a still connected one", "pieces": n, "abusers": [{"addr": addr(1), "incoming": false, "announced_id": "peer 1", "presents": presents}]});
+    Scenario { cfg: SimCfg { torrent, peers, tracker: vec![], failpoints: None, max_virtual_ms: 70_000, stop_on_extract: false, linger_ms: 0, disk_on: disk_never, seed, pre: None, tracker_fn: None, driver: None }, desc, abusers: vec![(addr(1), false, peer_id(1))] }
+}
+
 pub fn gen_scenario(r: &mut Rng, seed: u64) -> Scenario {
+    if r.chance(1, 10) {
+        return gen_relisted(r, seed);
+    }
     let torrent = Rc::new(gen_sim_torrent(r, 6, true));
     let n = torrent.n();
     let mut peers = vec![];
